@@ -392,6 +392,16 @@ pub fn scenarios_c22(thorough: bool) -> Vec<Scenario> {
     let total0: u128 = inv.iter().filter(|k| !k.inscribed()).map(|k| k.r0()).sum();
     let first0 = inv.iter().filter(|k| !k.inscribed()).map(|k| k.r0()).find(|a| *a > 0).unwrap_or(0);
     let mut amounts: Vec<u128> = vec![0, 1, first0, first0 + 1, total0, total0 + 1];
+    // every single output's balance and every sum of two outputs' balances (the amount at which
+    // "inputs cover the request exactly" for some selection), and one more
+    let singles: Vec<u128> = inv.iter().filter(|k| !k.inscribed()).map(|k| k.r0()).filter(|a| *a > 0).collect();
+    for (i, a) in singles.iter().enumerate() {
+      amounts.extend([*a, *a + 1]);
+      for b in &singles[i + 1..] {
+        amounts.extend([a + b, a + b + 1]);
+      }
+    }
+    amounts.retain(|a| *a <= total0 + 1);
     amounts.sort();
     amounts.dedup();
     for a in amounts {
